@@ -122,6 +122,11 @@ func (s *Session) Deliver(out []byte, incoming []byte, now time.Time) (bool, []b
 		if !s.rp.ValidateCounter(uint64(nonce), MaxNonce) {
 			return false, nil, nil
 		}
+		if s.isInit && s.hsIndex == nonceInitDone {
+			// the handshake was completed by application data instead of RespDone:
+			// leave the counters reserved for handshake messages, as readRespDone does.
+			atomic.StoreUint64(&s.nonce, noncePostHandshake)
+		}
 		s.hsIndex = 8 // successfully received a packet
 		return true, out, nil
 	}
